@@ -132,6 +132,7 @@ from .astutil import (
     re_identifier,
     re_identifier_dotted,
     re_identifier_alias,
+    re_identifier_alias_spaced,
     bistr,
     is_valid_target,
     is_valid_del_target,
@@ -2237,14 +2238,26 @@ def _one_info_identifier_required(
 
 _onestatic_identifier_required = onestatic(_one_info_identifier_required, _restrict_default, code_as=code_as_identifier)
 
+def _alias_name_end(self: fst.FST) -> tuple[int, int]:
+    """End of the name of an `alias` in the source, a dotted name can have whitespace and line continuations around the
+    dots so it is not necessarily as long as the `name` string or on one line."""
+
+    ln, col, end_ln, end_col = self.loc
+    src = self._get_src(ln, col, end_ln, end_col)
+    end = re_identifier_alias_spaced.match(src).end()  # must be there
+
+    if not (nls := src.count('\n', 0, end)):
+        return ln, col + end
+
+    return ln + nls, end - src.rindex('\n', 0, end) - 1
+
 def _one_info_identifier_alias(
     self: fst.FST, static: onestatic, idx: int | None, field: str
 ) -> oneinfo:  # required, cannot delete or put new
-    ln, col, end_ln, end_col = self.loc
-    end_col = re_identifier_alias.match(self.root._lines[ln], col,
-                                        end_col if end_ln == ln else 0x7fffffffffffffff).end()  # must be there
+    ln, col, _, _ = self.loc
+    end_ln, end_col = _alias_name_end(self)
 
-    return oneinfo('', None, fstloc(ln, col, ln, end_col))
+    return oneinfo('', None, fstloc(ln, col, end_ln, end_col))
 
 _onestatic_alias_name_all    = onestatic(_one_info_identifier_alias, _restrict_default, code_as=code_as_identifier_alias)
 _onestatic_alias_name_dotted = onestatic(_one_info_identifier_alias, _restrict_default, code_as=code_as_identifier_dotted)
@@ -2639,8 +2652,8 @@ def _one_info_keyword_arg(self: fst.FST, static: onestatic, idx: int | None, fie
 
 def _one_info_alias_asname(self: fst.FST, static: onestatic, idx: int | None, field: str) -> oneinfo:
     ast = self.a
-    ln, col, end_ln, end_col = self.loc
-    loc_insdel = fstloc(ln, col + len(ast.name), end_ln, end_col)
+    _, _, end_ln, end_col = self.loc
+    loc_insdel = fstloc(*_alias_name_end(self), end_ln, end_col)
 
     if (asname := ast.asname) is None:
         loc_prim = None
